@@ -189,7 +189,7 @@ def jobs(tier):
     for la in range(5):
         for lb in range(5):
             for mc in (True, False):
-                out.append(Job("O3-uniqueness-lemma", o3_unique, dict(la=la, lb=lb, multicast=mc), cost=la + lb))
+                out.append(Job("O3-uniqueness-lemma", o3_unique, dict(la=la, lb=lb, multicast=mc), cost=la + lb, crosscheck=True))
     for lx in range(5):
         for lvl in ("default", "sym") if tier == "quick" else ("default", "sym", 0, 1, 2, 3, 4):
             for custom in (False, True):
